@@ -30,10 +30,11 @@ META = {
 }
 
 INV = ["TypeOK", "PrepareWellFormed", "OnePreparePerUnprepared", "SendOrder", "ResentOnSuccess", "PrepareErrorSurfaces",
-       "LossMovesOn", "MismatchStops", "KeyspaceRule"]
+       "LossMovesOn", "MismatchStops", "KeyspaceRule", "IdsInSpace"]
 PROPS = ["NothingAfterStop"]
 WITNESSES = ["Witness_Mismatch", "Witness_KsMismatch", "Witness_NextHostAfterLoss", "Witness_SecondRound", "Witness_NoHost",
-             "Witness_LateAnswerAfterTimeout", "Witness_V5Keyspace", "Witness_PoolDownBeforePrepare"]
+             "Witness_LateAnswerAfterTimeout", "Witness_V5Keyspace", "Witness_PoolDownBeforePrepare",
+             "Witness_ResendOnStreamZero", "Witness_TimeoutTakesPrepareHandler"]
 NAMED_ACTIONS = ("Start", "RunReprepare", "RunAfter", "ConnLost", "PoolDown", "Timeout")
 ACT_NAMES = {"Start", "AnsUnprepared", "AnsRows", "RunReprepare", "AnsPrepare", "ConnLost", "PoolDown", "RunAfter", "Timeout"}
 RULE = ("spec->code: one case = one walk through the exhaustive state graph (configuration + schedule), the walks together cover "
